@@ -6,6 +6,7 @@ import (
 	"context"
 	"errors"
 	"fmt"
+	"strings"
 	"time"
 
 	"github.com/hprose/hprose-golang/v3/rpc/core"
@@ -175,19 +176,112 @@ func histories(shard, nshards int, thorough bool) h.SeqResult {
 	return res
 }
 
-// concurrent callers at one virtual instant (recovery time never elapses)
+// concurrent callers at one virtual instant (recovery time never elapses). Oracle: the observed decisions are
+// explained by the atomic breaker. Every call is two atomic steps of the model: a decision D (forward iff the
+// count of consecutive failures is <= threshold) somewhere between the call's start and the moment the
+// downstream handler is entered (or the call's return, for a rejected call), and a completion C (success: count
+// = 0; failure or panic: count + 1) somewhere between the downstream handler's return and the call's return. The
+// harness stamps these four moments with a tracked counter (so that they are totally ordered by happens-before
+// and the state cache cannot merge executions that differ in their order); the execution is accepted iff some
+// placement of all D and C steps inside their windows reproduces every observed forward / reject decision.
+type cbCall struct {
+	start, downBegin, downEnd, ret int // stamps; -1: did not happen
+	rejected, done                 bool
+	downstream                     int
+	err                            error
+	out                            int
+}
+
+func linearizable(calls []cbCall, threshold uint64) bool {
+	type stepT struct {
+		lo, hi int // the step happens after stamp lo and before stamp hi
+		call   int
+		dec    bool
+	}
+	var steps []stepT
+	maxStamp := 0
+	for i, c := range calls {
+		if !c.done {
+			continue
+		}
+		if c.ret > maxStamp {
+			maxStamp = c.ret
+		}
+		if c.rejected {
+			steps = append(steps, stepT{c.start, c.ret, i, true})
+		} else {
+			steps = append(steps, stepT{c.start, c.downBegin, i, true}, stepT{c.downEnd, c.ret, i, false})
+		}
+	}
+	type key struct {
+		g     int
+		mask  uint32
+		count uint64
+	}
+	dead := map[key]bool{}
+	full := uint32(1)<<uint(len(steps)) - 1
+	var rec func(g int, mask uint32, count uint64) bool
+	rec = func(g int, mask uint32, count uint64) bool {
+		if mask == full {
+			return true
+		}
+		k := key{g, mask, count}
+		if dead[k] {
+			return false
+		}
+		// execute one available step in the gap after stamp g
+		for i, st := range steps {
+			if mask&(1<<uint(i)) != 0 || st.lo > g || st.hi <= g {
+				continue
+			}
+			c := calls[st.call]
+			if st.dec {
+				if (count <= threshold) == c.rejected {
+					continue // the atomic breaker would have decided otherwise here
+				}
+				if rec(g, mask|1<<uint(i), count) {
+					return true
+				}
+			} else {
+				n := count + 1
+				if c.out == 0 {
+					n = 0
+				}
+				if rec(g, mask|1<<uint(i), n) {
+					return true
+				}
+			}
+		}
+		// or let the next stamp pass, unless a pending step must happen before it
+		if g < maxStamp {
+			ok := true
+			for i, st := range steps {
+				if mask&(1<<uint(i)) == 0 && st.hi <= g+1 {
+					ok = false
+				}
+			}
+			if ok && rec(g+1, mask, count) {
+				return true
+			}
+		}
+		dead[k] = true
+		return false
+	}
+	return rec(0, 0, 0)
+}
+
 func concurrent(n int, threshold uint64) h.Scenario {
 	name := fmt.Sprintf("breaker/callers=%d/threshold=%d", n, threshold)
 	return h.Scenario{Name: name, Quick: 2, Thorough: 3, Run: func(ch vs.Chooser, trace bool) (*vs.Sched, h.Outcome) {
-		type call struct {
-			failuresBegunBefore int
-			rejected, done      bool
-			downstream          int
-			err                 error
-			out                 int
+		calls := make([]cbCall, n*2)
+		var failuresBegun vs.Var[int] // shared harness variables: tracked so that the state cache sees accesses
+		var clock vs.Var[int]
+		stamp := func() int {
+			t := clock.Get() + 1
+			clock.Set(t)
+			return t
 		}
-		calls := make([]call, n*2)
-		var failuresBegun vs.Var[int] // shared harness variable: tracked so that the state cache sees accesses
+		failuresBegunBefore := make([]int, n*2)
 		s := vs.Run(ch, vs.Config{Trace: trace}, func() {
 			cb := circuitbreaker.New(circuitbreaker.WithThreshold(threshold), circuitbreaker.WithRecoverTime(time.Hour))
 			for t := 0; t < n; t++ {
@@ -195,13 +289,17 @@ func concurrent(n int, threshold uint64) h.Scenario {
 				vs.GoFG(fmt.Sprintf("caller%d", t), func() {
 					for k := 0; k < 2; k++ {
 						c := &calls[t*2+k]
+						c.downBegin, c.downEnd = -1, -1
+						c.start = stamp()
 						_, c.err = cb.IOHandler(context.Background(), []byte("r"), func(ctx context.Context, request []byte) ([]byte, error) {
+							c.downBegin = stamp()
 							c.downstream++
 							c.out = vs.Choose(3, "outcome")
 							if c.out != 0 {
 								failuresBegun.Set(failuresBegun.Get() + 1)
 							}
 							vs.Point("inside-downstream")
+							c.downEnd = stamp()
 							switch c.out {
 							case 1:
 								return nil, errDown
@@ -210,9 +308,10 @@ func concurrent(n int, threshold uint64) h.Scenario {
 							}
 							return []byte("ok"), nil
 						})
+						c.ret = stamp()
 						c.rejected = c.downstream == 0
 						if c.rejected {
-							c.failuresBegunBefore = failuresBegun.Get()
+							failuresBegunBefore[t*2+k] = failuresBegun.Get()
 						}
 						c.done = true
 					}
@@ -230,8 +329,8 @@ func concurrent(n int, threshold uint64) h.Scenario {
 				if c.err != circuitbreaker.ErrBreaker {
 					o.Viol = append(o.Viol, h.V{Sig: "breaker|concurrent|wrong-reject-error", What: fmt.Sprintf("%s: call %d rejected with %v", name, i, c.err)})
 				}
-				if uint64(c.failuresBegunBefore) <= threshold {
-					o.Viol = append(o.Viol, h.V{Sig: "breaker|concurrent|rejects-while-closed", What: fmt.Sprintf("%s: call %d rejected although only %d downstream failures had begun (threshold %d)", name, i, c.failuresBegunBefore, threshold)})
+				if uint64(failuresBegunBefore[i]) <= threshold {
+					o.Viol = append(o.Viol, h.V{Sig: "breaker|concurrent|rejects-while-closed", What: fmt.Sprintf("%s: call %d rejected although only %d downstream failures had begun (threshold %d)", name, i, failuresBegunBefore[i], threshold)})
 				}
 			} else {
 				if c.out != 0 {
@@ -244,6 +343,15 @@ func concurrent(n int, threshold uint64) h.Scenario {
 					o.Viol = append(o.Viol, h.V{Sig: "breaker|concurrent|wrong-result", What: fmt.Sprintf("%s: call %d outcome %d err %v", name, i, c.out, c.err)})
 				}
 			}
+		}
+		if !s.Pruned && s.Aborted == "" && len(o.Viol) == 0 && !linearizable(calls, threshold) {
+			var hist []string
+			for i, c := range calls {
+				if c.done {
+					hist = append(hist, fmt.Sprintf("call %d (caller %d): start@%d downstream@%d..%d outcome=%s return@%d rejected=%v", i, i/2, c.start, c.downBegin, c.downEnd, []string{"success", "error", "panic"}[c.out], c.ret, c.rejected))
+				}
+			}
+			o.Viol = append(o.Viol, h.V{Sig: "breaker|concurrent|decisions-not-explained-by-atomic-breaker", What: fmt.Sprintf("%s: no placement of the calls' decision and completion steps inside their observed windows reproduces the forward/reject decisions: %s", name, strings.Join(hist, "; "))})
 		}
 		o.Key = fmt.Sprintf("rejected=%d failed=%d", nrej, nfail)
 		return s, o
